@@ -32,7 +32,7 @@ POINT_SETS = {
     "three": [[0, 0, 0], [0.1, 0.05, 0.0], [2.0, 0.5, 0.3]],
     "eight": [[0, 0, 0], [0.3, 0.1, 0], [0.5, 0.4, 0.1], [0.55, 0.45, 0.1], [1.5, 0.5, 0.2], [1.7, 1.2, 0.2], [1.75, 1.3, 0.3], [3.0, 1.5, 0.3]],
 }
-KINDS = ["discrete", "linear_eq", "linear_raw", "spline_eq", "spline_raw", "analytic", "line", "circle"]
+KINDS = ["discrete", "linear_eq", "linear_raw", "spline_eq", "spline_raw", "analytic", "line", "line_ext", "line_narrow", "circle"]
 
 
 def cases(tier, seed):
@@ -55,7 +55,7 @@ def cases(tier, seed):
     for kind in KINDS:
         if kind == "analytic":
             continue  # documented as not transformable
-        sets = ["-"] if kind in ("line", "circle") else (list(POINT_SETS) if tier == "thorough" else ["uneven6", "zigzag5"])
+        sets = ["-"] if kind in ("line", "line_ext", "line_narrow", "circle") else (list(POINT_SETS) if tier == "thorough" else ["uneven6", "zigzag5"])
         for ps in sets:
             for h in hist:
                 for pre in ((1,) if tier == "quick" else (0, 1)):
@@ -110,8 +110,10 @@ def make_curve0(case):
     R, t = FRAMES[fr]
     if kind == "analytic":
         return cb.AnalyticCurve(lambda s: R @ np.array([math.cos(s), math.sin(s), 0.3 * s]) + t, (0, 4.0)), None
-    if kind == "line":
-        return cb.LineCurve(frame_apply(FRAMES[fr], [[0.1, 0.2, 0.3]])[0], frame_apply(FRAMES[fr], [[1.5, -0.4, 0.9]])[0], (0, 1)), None
+    if kind.startswith("line"):
+        # (the optional bounds extend the line beyond its two defining points, or clip it between them)
+        bounds = {"line": (0, 1), "line_ext": (-1.0, 2.5), "line_narrow": (0.2, 0.8)}[kind]
+        return cb.LineCurve(frame_apply(FRAMES[fr], [[0.1, 0.2, 0.3]])[0], frame_apply(FRAMES[fr], [[1.5, -0.4, 0.9]])[0], bounds), None
     if kind == "circle":
         o = frame_apply(FRAMES[fr], [[0.5, 0.5, 0.2]])[0]
         rim = frame_apply(FRAMES[fr], [[1.7, 0.5, 0.2]])[0]
@@ -128,7 +130,7 @@ def run_case(case):
     curve, pts = make_curve(case)
     lo, hi = curve.bounds
     discrete = kind == "discrete"
-    analytic = kind in ("analytic", "circle", "line")
+    analytic = kind in ("analytic", "circle") or kind.startswith("line")
     rel = 1e-3 if analytic else 1e-9
     if discrete:
         grid = list(range(int(lo), int(hi) + 1))
